@@ -465,7 +465,7 @@ Definition AL (s : server) : Prop := forall id, sv_is_active s id = true -> In i
 Lemma is_active_deadline s id : sv_is_active s id = true <-> exists to, deadline_of (so_state (sv_obj_get s id)) = Some to.
 Proof.
   unfold sv_is_active. destruct (so_state (sv_obj_get s id)); cbn [deadline_of]; split; intros H; try discriminate H;
-    try (destruct H as [to H]; discriminate H); try reflexivity. eexists; reflexivity.
+    try (destruct H as [? H]; discriminate H); try reflexivity. eexists; reflexivity.
 Qed.
 
 Lemma KD_active s s' id : KD s s' -> sv_is_active s' id = true -> sv_is_active s id = true.
@@ -600,4 +600,32 @@ Proof.
   specialize (H (server_new cfg t0 seed, fun _ => 0)). rewrite F in H. cbn [fst snd] in H. intros Ha. apply H; [| |exact Ha].
   - split; [apply server_new_WF|]. intros j to Hd. unfold sv_obj_get in Hd. cbn [server_new sv_objs] in Hd. destruct (N.to_nat j); cbn in Hd; discriminate Hd.
   - intros j Hj. unfold sv_is_active, sv_obj_get in Hj. cbn [server_new sv_objs] in Hj. destruct (N.to_nat j); cbn in Hj; discriminate Hj.
+Qed.
+
+(* A whole step, put together: every entry that is established when the timeout pass of this step runs and whose
+   peer has been silent for active_timeout_ms (counting this step's input) is reported with Error(Timeout) among
+   the step's events and is no longer established afterwards; what is still established after the step heard its
+   peer less than active_timeout_ms ago. *)
+Theorem server_step_active_timeout s LA vnow inbox nonces s' evs sends rest :
+  WF s -> AInv s LA -> AL s -> server_step s vnow inbox nonces = Ok (s', evs, sends, rest) ->
+  let now := vnow - sv_t0 s in
+  let LA' := la_frames inbox LA now in
+  exists s3, AInv s3 LA' /\ AL s3 /\
+    forall j, sv_is_active s3 j = true ->
+      let addr := so_addr (sv_obj_get s3 j) in
+      (LA' addr + ato s <= now -> In (EvError addr 0) evs /\ sv_is_active s' j = false) /\
+      (sv_is_active s' j = true -> now < LA' addr + ato s).
+Proof.
+  intros W I L E now LA'. destruct (server_step_pass _ _ _ _ _ _ _ _ _ W I L E) as (s3 & a3 & W3 & I3 & L3 & C3 & Kd & (tl & Et) & L').
+  fold now in I3, Kd, Et. fold LA' in I3. exists s3. split; [exact I3|]. split; [exact L3|]. intros j Ha addr.
+  assert (Due : LA' addr + ato s <= now -> In (EvError addr 0) evs /\ sv_is_active s' j = false).
+  { intros Hle. unfold sv_is_active in Ha. destruct (so_state (sv_obj_get s3 j)) eqn:Es; try discriminate Ha.
+    destruct (server_active_timeout_rule s3 LA' (sv_active s3) a3 now I3) as [R _].
+    destruct (R j _ _ _ _ Es) as [_ R2]. fold addr in R2. rewrite C3 in R2.
+    destruct (R2 (L3 j ltac:(unfold sv_is_active; rewrite Es; reflexivity)) Hle) as [Fin Ev]. split.
+    - rewrite Et. apply in_or_app. left. exact Ev.
+    - destruct (sv_is_active s' j) eqn:Ea; [|reflexivity]. exfalso. pose proof (KD_active _ _ j Kd Ea) as Hb.
+      unfold sv_is_active in Hb. rewrite Fin in Hb. discriminate Hb. }
+  split; [exact Due|]. intros Ha'. destruct (N.lt_ge_cases now (LA' addr + ato s)) as [Hlt|Hge]; [exact Hlt|].
+  destruct (Due Hge) as [_ Hf]. rewrite Hf in Ha'. discriminate Ha'.
 Qed.
